@@ -24,7 +24,9 @@ PROP = "C04"
 MAX_VIOLATIONS = 5          # replay files written per run; further failing points are only counted
 ERRNOS_QUICK = ["EIO"]
 ERRNOS_THOROUGH = ["EIO", "ENOSPC", "EACCES"]
-PERTURB = ["edited", "truncated", "deleted", "latin1", "dir", "occupied"]
+PERTURB = ["edited", "truncated", "deleted", "latin1", "dir", "occupied", "line_tail"]
+# line_tail: text appended to the END of the line that carries the file's last match (a trailing comment): every planned byte
+# range still holds the planned text, so the plan is NOT stale and apply must succeed completely
 CORPUS = os.path.join(common.ROOT, "corpus", PROP)
 
 
@@ -227,14 +229,22 @@ def perturb_jobs(sc, plan):
         else:
             targets = [files[0], files[-1]] if len(files) > 1 else files[:1]
         for t in targets:
-            jobs.append((kind, t))
+            if kind == "line_tail":
+                jobs.append((kind, t, max(m["end"] for m in plan["matches"] if m["file"] == t)))
+            else:
+                jobs.append((kind, t))
     return jobs
 
 
 def perturbed_tree(pre_tree, p):
-    kind, rel = p
+    kind, rel = p[0], p[1]
     t = dict(pre_tree)
-    if kind == "edited":
+    if kind == "line_tail":
+        n = t[rel]
+        i = n[2].find(b"\n", p[2])
+        i = len(n[2]) if i < 0 else i
+        t[rel] = (n[0], n[1], n[2][:i] + b" // reviewed" + n[2][i:])
+    elif kind == "edited":
         n = t[rel]; t[rel] = (n[0], n[1], b"INSERTED " + n[2])
     elif kind == "truncated":
         n = t[rel]; t[rel] = (n[0], n[1], b"f")
